@@ -30,8 +30,8 @@ JOBS = 10
 # tolerances (relative to the stated scale).  Measured maxima on the unchanged tree are in brackets.
 TOL_LIB = 1e-11       # miescatlib sums vs model, scale = sum of magnitudes            [<= 4e-16]
 TOL_COEF = 1e-8       # scatcoeffs vs Bohren-Huffman model on the kernel values, per coefficient, times
-#                       (1 + (0.1/x)^2): the float numerator (D m + n/x) psi_n - psi_{n-1} cancels like 1/x^2
-#                       [<= 1e-12 for x >= 0.1; 7e-10 at x = 0.003]
+#                       (1 + (0.1/x)^2) max(1, 0.1/|m-1|): the float numerator (D m + n/x) psi_n - psi_{n-1}
+#                       cancels like 1/(x^2 |m-1|)  [<= 7e-12 in these units; 4e-9 absolute at x = 0.008, m = 0.985]
 TOL_XSEC = 1e-9       # calc_cross_sections vs model on the same coefficients, / cext   [<= 1e-15]
 TOL_S = 2e-6          # calc_scat_matrix vs model, scale = sum of |terms|; asm_mie_far forms (2n+1)/(n(n+1))
 #                       in REAL*4, so each term carries a relative error up to 2^-24 = 6e-8  [<= 6e-8]
@@ -264,7 +264,7 @@ def stage_coef(ctx):
                 if not STAT.see("coef:Re=|.|^2", abs(z.real - abs(z) ** 2), 1e-9 * abs(z) + 1e-300):
                     ctx.violation("coef:real-form", "Re a != |a|^2 for a real relative index",
                                   dict(kind="real-form", m=m, x=x, coef=complex(z)))
-        tolc = TOL_COEF * (1.0 + (0.1 / x) ** 2)
+        tolc = TOL_COEF * (1.0 + (0.1 / x) ** 2) * max(1.0, 0.1 / abs(m - 1))
         e = ("coefs_near %s (scatcoeffs QOr %s %s %s %s %s) %s" % (
             qlit(tolc), cq(m), qlit(x), listlit([cq(d) for d in D]),
             listlit([qlit(float(p)) for p in psi]), listlit([qlit(float(c)) for c in chi]),
